@@ -1,8 +1,48 @@
-import DendroModel.Basic.Tree
-open DendroModel
+import DendroModel.Model.C01
+open DendroModel DendroModel.C01
+
+def insertSortedPair (x : Nat × Int) : List (Nat × Int) → List (Nat × Int)
+  | [] => [x]
+  | y :: ys => if x.1 < y.1 || (x.1 == y.1 && x.2 ≤ y.2) then x :: y :: ys else y :: insertSortedPair x ys
+def sortPairs (l : List (Nat × Int)) : List (Nat × Int) := l.foldr insertSortedPair []
+
+def parseRooted (s : String) : Option (Option Bool) :=
+  if s == "R" then some (some true) else if s == "U" then some (some false) else if s == "N" then some none else none
+
+def b01 (b : Bool) : String := if b then "1" else "0"
 
 def handle (ws : List String) : String :=
   match ws with
+  -- encode <R|U|N> <suppress> <collapse> <tree>  ->  sorted leafset:split pairs | tree after side effects
+  | "encode" :: r :: sup :: col :: rest =>
+    match parseRooted r, parseTree rest with
+    | some r, some (t, []) =>
+      let pairs := sortPairs (encode r (sup == "1") (col == "1") t)
+      " ".intercalate (pairs.map (fun p => s!"{p.1}:{p.2}")) ++ " | " ++ (encodeTree r (sup == "1") (col == "1") t).render
+    | _, _ => "bad-op"
+  -- build <all> <rooted 0/1> <k> <member bits…> <splits…>
+  | "build" :: all :: r :: k :: rest =>
+    match all.toNat?, k.toNat?, rest.mapM String.toNat? with
+    | some all, some k, some xs => Hier.render (build all (xs.take k) (r == "1") (xs.drop k))
+    | _, _, _ => "bad-op"
+  -- pred <m1> <m2> <fill>  (any integers)  ->  trivial(m1,fill) compatible(m1,m2,fill) nested(m1 within m2)
+  | ["pred", a, b, f] =>
+    match a.toInt?, b.toInt?, f.toInt? with
+    | some a, some b, some f => s!"{b01 (isTrivial a f)} {b01 (isCompatible a b f)} {b01 (isNested a b f)}"
+    | _, _, _ => "bad-op"
+  -- pyint <a> <b> <k>: the translator's operator mapping  ->  a&b a|b a^b ~a a<<k normalize(a,b,k') lsb(a)
+  | ["pyint", a, b, k] =>
+    match a.toInt?, b.toInt?, k.toNat? with
+    | some a, some b, some k =>
+      s!"{pyAnd a b} {pyOr a b} {pyXor a b} {pyNot a} {pyShl a k} {PyBits.normalize_bitmask a b (k : Int)} {PyBits.least_significant_set_bit a}"
+    | _, _, _ => "bad-op"
+  -- compat <R|U|N> <split> <tree>: Tree.is_compatible_with_bipartition (default flags)
+  | "compat" :: r :: s :: rest =>
+    match parseRooted r, s.toInt?, parseTree rest with
+    | some r, some s, some (t, []) =>
+      let enc := encode r true true t
+      b01 (treeCompatible enc (encodeTree r true true t).mask s)
+    | _, _, _ => "bad-op"
   | _ => "bad-op"
 
 def main : IO Unit := do driverLoop (← IO.getStdin) handle
